@@ -995,3 +995,92 @@ def accumulator_of(term):
             if isinstance(sub, tuple) and sub and sub[0] == "bin" and canon_nobb(map_term(sub, unphi)) == want:
                 return loc
     return None
+
+
+# ---------------------------------------------------------------------------
+# decision table of a loop-free scalar function (for sibling agreement between ported copies)
+# ---------------------------------------------------------------------------
+
+def _plain_name(p):
+    if not p:
+        return p
+    while True:
+        q = re.sub(r"<[^<>]*>", "", p)
+        if q == p:
+            break
+        p = q
+    segs = [x for x in p.split("::") if x and not x.startswith("{")]
+    return "::".join(segs[-2:]) if len(segs) >= 2 else p
+
+
+def shape_of(t, _depth=0):
+    """Canonical, body-independent form of a term: calls by the last two path segments (no generics, no block
+    ids), constants by value, a phi by the set of its alternatives (the loop-carried self reference becomes `self`)."""
+    t = deep_strip(t)
+    k = t[0]
+    if _depth > 40:
+        return ("deep",)
+    if k == "k":
+        cv = const_value(t)
+        return ("k", cv if cv is not None else (t[3] if len(t) > 3 else None))
+    if k == "arg":
+        return t
+    if k == "local":
+        return ("self",)
+    if k == "phi":
+        alts = t[2] if len(t) > 2 else []
+        return ("phi", frozenset(shape_of(a, _depth + 1) for a in alts))
+    if k == "call":
+        return ("call", _plain_name(t[1]), tuple(shape_of(a, _depth + 1) for a in t[3]))
+    if k == "bin":
+        op = t[1].replace("WithOverflow", "").replace("Unchecked", "")
+        return ("bin", op, shape_of(t[2], _depth + 1), shape_of(t[3], _depth + 1))
+    if k == "un":
+        return ("un", t[1], shape_of(t[2], _depth + 1))
+    if k == "cast":
+        return ("cast", shape_of(t[2], _depth + 1), t[3] if len(t) > 3 else None)
+    if k in ("field", "downcast"):
+        return (k, shape_of(t[1], _depth + 1)) + tuple(str(x) for x in t[2:])
+    if k in ("deref", "ref", "discr"):
+        return (k, shape_of(t[1], _depth + 1))
+    if k == "agg":
+        return ("agg", tuple(str(x) for x in t[1][:3]), tuple(shape_of(a, _depth + 1) for a in t[2]))
+    return (k,) + tuple(str(x) for x in t[1:3])
+
+
+def decision_table(body, facts=None):
+    """{(frozenset of dominating boolean facts, value)}: every way the value the function returns (or hands to the
+    call that builds its return value) is chosen -- one row per assignment to a multiply-assigned local that the
+    result depends on, with the conditions that lead there."""
+    rows = set()
+    seen = set()
+
+    def fact_shapes(bb):
+        out = set()
+        for tm, v in bool_facts(body, bb, facts):
+            out.add((shape_of(tm), v))
+        return frozenset(out)
+
+    def visit(term):
+        for s in walk(term):
+            if isinstance(s, tuple) and s and s[0] == "phi" and s[1] not in seen:
+                seen.add(s[1])
+                for d in body.defs().get(s[1], []):
+                    if d[0] == "stmt":
+                        tm = body.term_of_rvalue(d[3])
+                        rows.add((fact_shapes(d[1]), shape_of(tm)))
+                        visit(tm)
+                    elif d[0] == "call":
+                        rows.add((fact_shapes(d[1]), ("call", _plain_name(d[2]["fn"]))))
+    for rb, si, kind, term in return_assignments(body):
+        if term is not None:
+            rows.add((fact_shapes(rb), ("ret", shape_of(term))))
+            visit(term)
+        else:
+            # value produced by a call in the return block: its arguments
+            t = body.blocks[rb]["t"] if body.blocks[rb]["t"]["k"] == "call" else None
+            rows.add((fact_shapes(rb), ("ret", kind if not kind.startswith("call:") else "call:" + _plain_name(kind[5:]))))
+    for bb, t in body.calls():
+        for a in t["args"]:
+            visit(body.term_of_operand(a))
+    return rows
